@@ -294,4 +294,40 @@ theorem stageTruncate_frame (L Lu : Msg → Nat) (w : Writer) (m : Msg) :
     · intro _; rfl
   · simp
 
+/-! ### what `writeWire` writes, when it writes -/
+
+theorem writeWire_some (L : Msg → Nat) (cfg : Cfg) (w : Writer) (body r : Msg) (info : WireInfo)
+    (h : writeWire L cfg w body info = some r) :
+    (w.do_ = true ∨ info.hasDnssec = false) ∧
+    ((w.noedns = true ∧ r = wireBody w body info) ∨
+     (w.noedns = false ∧ r = withWireOPT cfg w info (wireBody w body info))) ∧
+    (w.proto = .udp → L r ≤ w.size) := by
+  unfold writeWire at h
+  generalize wireBody w body info = b at *
+  by_cases h1 : (!w.do_ && info.hasDnssec) = true
+  · simp [h1] at h
+  · simp only [h1, Bool.false_eq_true, if_false] at h
+    have hd : w.do_ = true ∨ info.hasDnssec = false := by
+      cases hdo : w.do_ <;> cases hf : info.hasDnssec <;> simp [hdo, hf] at h1 ⊢
+    refine ⟨hd, ?_⟩
+    generalize hout : (if w.noedns = true then b else withWireOPT cfg w info b) = out at h
+    by_cases hov : (w.proto == Proto.udp && decide (L out > w.size)) = true
+    · simp [hov] at h
+    · simp only [hov, Bool.false_eq_true, if_false, Option.some.injEq] at h
+      subst h
+      constructor
+      · cases hne : w.noedns with
+        | true => left; rw [hne] at hout; exact ⟨rfl, by simpa using hout.symm⟩
+        | false => right; rw [hne] at hout; exact ⟨rfl, by simpa using hout.symm⟩
+      · intro hp
+        simp only [hp, beq_self_eq_true, Bool.true_and, decide_eq_true_eq] at hov
+        omega
+
+theorem wireBody_frame (w : Writer) (body : Msg) (info : WireInfo) :
+    (wireBody w body info).id = body.id ∧ (wireBody w body info).opcode = body.opcode ∧
+    (wireBody w body info).fl.qr = body.fl.qr ∧ (wireBody w body info).question = body.question ∧
+    (wireBody w body info).rcode = body.rcode ∧ (wireBody w body info).answer = body.answer ∧
+    (wireBody w body info).ns = body.ns ∧ (wireBody w body info).extra = body.extra := by
+  unfold wireBody; split <;> simp
+
 end SdnsVerif.Lemmas.Edns
